@@ -119,6 +119,42 @@ site('g_two_chain','(b0_round b1_round : N) : bool',core,'core.rs','process_bloc
 site('g_round_gate','(b_round round : N) : bool',core,'core.rs','process_block',r'if\s+(block\.round\s*!=.*?)\s*\{',{'block.round':'b_round','self.round':'round'},default='(negb (b_round =? round))')
 site('g_quorum_consensus','(total : N) : N',cfg,'consensus/config.rs','quorum_threshold',r';\s*([^;]*?)\s*$',{'total_votes':'total'},default='(((2 * total) / 3) + 1)')
 site('g_quorum_mempool','(total : N) : N',mcfg,'mempool/config.rs','quorum_threshold',r';\s*([^;]*?)\s*$',{'total_votes':'total'},default='(((2 * total) / 3) + 1)')
+
+# ---- commit(): the deque discipline, read off the source (which end each push/pop uses, whether the head is
+# pushed before or after the walk, and the optional stop test inside the walk) ----
+def flag(name, fn, pattern, mapping, default, what):
+    body, line = fn_body(core, fn)
+    m = re.search(pattern, body, re.S) if body else None
+    if m and m.group(1) in mapping:
+        v = mapping[m.group(1)]
+        defs.append("(* core.rs: fn %s (line %d): %s: `%s` *)\nDefinition %s : bool := %s." % (fn, line, what, m.group(0).strip(), name, v))
+        sites.append({'name': name, 'file': 'core.rs', 'fn': fn, 'line': line, 'rust': m.group(0).strip(), 'coq': v, 'changed': v != default})
+    else:
+        untied.append((name, "site not found"))
+        defs.append("(* UNTIED %s: site not found *)\nDefinition %s : bool := %s." % (name, name, default))
+        sites.append({'name': name, 'file': 'core.rs', 'fn': fn, 'line': line, 'rust': None, 'coq': default, 'untied': 'site not found'})
+flag('g_commit_anc_front', 'commit', r'to_commit\.push_(front|back)\(\s*ancestor\.clone\(\)\s*\)', {'front': 'true', 'back': 'false'}, 'true', 'ancestors are pushed at this end')
+flag('g_commit_head_front', 'commit', r'to_commit\.push_(front|back)\(\s*block\.clone\(\)\s*\)', {'front': 'true', 'back': 'false'}, 'false', 'the head is pushed at this end')
+flag('g_commit_pop_back', 'commit', r'to_commit\.pop_(front|back)\(\s*\)', {'front': 'false', 'back': 'true'}, 'false', 'delivery drains from this end')
+# head pushed before the walk?
+_b, _l = fn_body(core, 'commit')
+_mh = re.search(r'to_commit\.push_(?:front|back)\(\s*block\.clone\(\)\s*\)', _b or '')
+_mw = re.search(r'\bwhile\b', _b or '')
+if _mh and _mw:
+    v = 'true' if _mh.start() < _mw.start() else 'false'
+    defs.append("(* core.rs: fn commit (line %d): is the head pushed before the ancestor walk? *)\nDefinition g_commit_head_first : bool := %s." % (_l, v))
+    sites.append({'name': 'g_commit_head_first', 'file': 'core.rs', 'fn': 'commit', 'line': _l, 'rust': 'position of push(block) relative to while', 'coq': v, 'changed': v != 'false'})
+else:
+    untied.append(('g_commit_head_first', 'site not found'))
+    defs.append("(* UNTIED g_commit_head_first *)\nDefinition g_commit_head_first : bool := false.")
+    sites.append({'name': 'g_commit_head_first', 'file': 'core.rs', 'fn': 'commit', 'line': _l, 'rust': None, 'coq': 'false', 'untied': 'site not found'})
+# optional stop test inside the walk: `if <cond> { break; }`; absent = never stops early
+_ms = re.search(r'if\s+([^{}]*?)\s*\{\s*break\s*;\s*\}', _b or '', re.S)
+if _ms:
+    site('g_commit_stop', '(anc_round lcr : N) : bool', core, 'core.rs', 'commit', r'if\s+([^{}]*?)\s*\{\s*break\s*;\s*\}', {'ancestor.round': 'anc_round', 'self.last_committed_round': 'lcr'}, default='(anc_round <=? lcr)')
+else:
+    defs.append("(* core.rs: fn commit (line %d): no early `break` in the ancestor walk *)\nDefinition g_commit_stop (anc_round lcr : N) : bool := false." % _l)
+    sites.append({'name': 'g_commit_stop', 'file': 'core.rs', 'fn': 'commit', 'line': _l, 'rust': '(no break in the walk)', 'coq': 'false', 'changed': True})
 site('g_quorum_consensus_u32','(total : N) : N',cfg,'consensus/config.rs','quorum_threshold',r';\s*([^;]*?)\s*$',{'total_votes':'total'},default='(u32 ((u32 ((u32 (2 * total)) / 3)) + 1))',wrap='u32')
 site('g_quorum_mempool_u32','(total : N) : N',mcfg,'mempool/config.rs','quorum_threshold',r';\s*([^;]*?)\s*$',{'total_votes':'total'},default='(u32 ((u32 ((u32 (2 * total)) / 3)) + 1))',wrap='u32')
 hdr = "(* GENERATED by regen.py from %s -- do not edit *)\nFrom Coq Require Import NArith Bool.\nOpen Scope N_scope.\nDefinition u32 (x : N) : N := x mod 4294967296.\n\n" % REPO
